@@ -214,7 +214,10 @@ def to_iter(e,run,v):
     if isinstance(d,Opaque) and d.kind.startswith('const:'): return Iter([])
     raise Unsupported('into_iter of '+repr(d)[:80])
 
-def m_into_iter(e,run,a,f): return to_iter(e,run,a[0])
+def m_into_iter(e,run,a,f):
+    d=deref(a[0])
+    if isinstance(d,Agg) and e.impl_index.get(('Iterator',d.ty,'next')): return a[0]      # in-crate iterator: IntoIterator is the identity
+    return to_iter(e,run,a[0])
 def m_slice_iter(e,run,a,f):
     d=deref(a[0])
     if isinstance(d,VecO): return Iter([Ref(d,i) for i in range(len(d.items))])
@@ -1715,17 +1718,26 @@ def m_naive_utc(e,run,a,f):
 def m_and_utc(e,run,a,f):
     d=deref(a[0]); return Agg('DateTime',[d.f[0],d.f[1]])
 def m_dt_timestamp(e,run,a,f): return deref(a[0]).f[0]
+def _fmt_rfc3339(utc,off,use_z,nanos=0):
+    import datetime
+    try: t=datetime.datetime(1970,1,1)+datetime.timedelta(seconds=utc+off)
+    except OverflowError: raise Unsupported('rfc3339 out of range')
+    s=t.strftime('%Y-%m-%dT%H:%M:%S')
+    if nanos: s+=('.%09d'%nanos).rstrip('0')
+    if off==0 and use_z: return s+'Z'
+    sign='+' if off>=0 else '-'; o=abs(off)
+    return s+'%s%02d:%02d'%(sign,o//3600,(o%3600)//60)
 def m_to_rfc3339_opts(e,run,a,f):
     d=deref(a[0]); fmt=deref(a[1])
     if fmt.vname!='Secs': raise Unsupported('to_rfc3339_opts '+str(fmt.vname))
-    off=0 if d.ty=='DateTime' else d.f[2].v
-    if d.ty=='DateTime' and d.f[0].conc():
-        import datetime
-        try: txt=(datetime.datetime(1970,1,1)+datetime.timedelta(seconds=d.f[0].signed_val())).strftime('%Y-%m-%dT%H:%M:%SZ')
-        except OverflowError: raise Unsupported('to_rfc3339_opts out of range')
-        return StringO(list(txt.encode()),False,{'kind':'rfc3339','local_secs':d.f[0].signed_val(),'nanos':0,'offset':0})
+    use_z=deref(a[2]); use_z=use_z.v if isinstance(use_z,Bool) and use_z.conc() else True
+    offv=Int(32,True,0) if d.ty=='DateTime' else d.f[2]
+    if d.f[0].conc() and offv.conc():
+        off=offv.signed_val()
+        txt=_fmt_rfc3339(d.f[0].signed_val(),off,use_z)
+        return StringO(list(txt.encode()),False,{'kind':'rfc3339','local_secs':d.f[0].signed_val()+off,'nanos':0,'offset':off})
     loc=d.f[0].z() if d.ty=='DateTime' else e.binop('Add',d.f[0],_off64(d)).z()
-    return StringO(list(b'<rfc3339>'),True,{'kind':'rfc3339','local_secs':loc,'nanos':0,'offset':off,'zulu':deref(a[2])})
+    return StringO(list(b'<rfc3339>'),True,{'kind':'rfc3339','local_secs':loc,'nanos':0,'offset':offv.v,'zulu':use_z})
 def m_to_rfc3339(e,run,a,f):
     d=deref(a[0])
     off=0 if d.ty=='DateTime' else d.f[2].v
@@ -1931,3 +1943,19 @@ def register_misc7(E):
 _old_register_all15=register_all
 def register_all(E):
     _old_register_all15(E); register_misc7(E)
+def m_into_generic(e,run,a,f):
+    m=re.match(r'^<(.*) as Into<(.*)>>::into$',strip_t(f))
+    if m:
+        src,dst=m.group(1).strip(),m.group(2).strip()
+        try: return e.call_named(run,'<%s as From<%s>>::from'%(dst,src),[a[0]])
+        except Unsupported: pass
+    d=deref(a[0])
+    if isinstance(d,(Str,StringO)): return StringO(d.b,d.taint,d.ghost)
+    return a[0]
+def register_misc8(E):
+    E.models=[x for x in E.models if x[2] not in (r'^<.* as Into<(std::string::)?String>>::into$',)]
+    E.model(r'^<.* as Into<.*>>::into$',m_into_generic)
+    E.model(r'^std::io::_print$|^std::io::_eprint$',m_unit)
+_old_register_all16=register_all
+def register_all(E):
+    _old_register_all16(E); register_misc8(E)
